@@ -71,6 +71,7 @@ type SpecDecl struct {
 }
 
 type PureDecl struct {
+	Pkg    string
 	Name   string
 	Params []QVar
 	Ret    string
@@ -111,8 +112,20 @@ type Specs struct {
 	Monitors  []*Monitor
 	Census    []*Census
 	Lemmas    []*Lemma
+	ChanMsgs  []*ChanMsg
 	Immutable map[string]bool // pkg.Type.field declared immutable after construction
 	Files     []string
+}
+
+// ChanMsg: sending a value of this type hands a ghost resource to the receiver.
+type ChanMsg struct {
+	TypeName string // qualified element type
+	Ghost    Expr
+	Amount   Expr // over "msg"
+	Inv      Expr // message invariant (chaninv): asserted at send, assumed at receive
+	Pkg      string
+	File     string
+	Line     int
 }
 
 type Lemma struct {
@@ -450,7 +463,7 @@ func (sp *Specs) loadContractFile(path, pkg string, assumed bool) error {
 			if op < 0 || cp < op {
 				return fmt.Errorf("%s:%d: bad pure header", path, l.line)
 			}
-			pd := &PureDecl{Name: strings.TrimSpace(head[:op]), Ret: strings.TrimSpace(head[cp+1:])}
+			pd := &PureDecl{Pkg: curPkg, Name: strings.TrimSpace(head[:op]), Ret: strings.TrimSpace(head[cp+1:])}
 			for _, p := range splitTop(head[op+1 : cp]) {
 				f := strings.Fields(p)
 				if len(f) != 2 {
@@ -487,6 +500,43 @@ func (sp *Specs) loadContractFile(path, pkg string, assumed bool) error {
 					sp.SentinelType[s] = strings.Trim(wtag, "[]")
 				}
 			}
+		case "chanmsg":
+			// chanmsg Type ghost, amount
+			parts := strings.SplitN(rest, " ", 2)
+			if len(parts) != 2 {
+				return fmt.Errorf("%s:%d: chanmsg Type ghost, amount", path, l.line)
+			}
+			ga := splitTop(parts[1])
+			if len(ga) != 2 {
+				return fmt.Errorf("%s:%d: chanmsg Type ghost, amount", path, l.line)
+			}
+			g, err := ParseExpr(ga[0])
+			if err != nil {
+				return fmt.Errorf("%s:%d: %v", path, l.line, err)
+			}
+			a, err := ParseExpr(ga[1])
+			if err != nil {
+				return fmt.Errorf("%s:%d: %v", path, l.line, err)
+			}
+			tn := parts[0]
+			if !strings.Contains(tn, ".") && curPkg != "" {
+				tn = curPkg + "." + tn
+			}
+			sp.ChanMsgs = append(sp.ChanMsgs, &ChanMsg{TypeName: tn, Ghost: g, Amount: a, Pkg: curPkg, File: path, Line: l.line})
+		case "chaninv":
+			parts := strings.SplitN(rest, " ", 2)
+			if len(parts) != 2 {
+				return fmt.Errorf("%s:%d: chaninv Type expr", path, l.line)
+			}
+			e, err := ParseExpr(parts[1])
+			if err != nil {
+				return fmt.Errorf("%s:%d: %v", path, l.line, err)
+			}
+			tn := parts[0]
+			if !strings.Contains(tn, ".") && curPkg != "" {
+				tn = curPkg + "." + tn
+			}
+			sp.ChanMsgs = append(sp.ChanMsgs, &ChanMsg{TypeName: tn, Inv: e, Pkg: curPkg, File: path, Line: l.line})
 		case "immutable":
 			for _, s := range strings.Fields(rest) {
 				if strings.Count(s, ".") == 1 && curPkg != "" {
